@@ -1,7 +1,7 @@
 """C13 — point containment predicates (structural clauses)."""
 from . import scopes
 from ..core.report import DOMAIN_D
-from ..rules import colliders, frame, degree, affine
+from ..rules import colliders, frame, degree, affine, unpack
 from .common import e2
 
 MODS = {"distance3d.containment_test", "distance3d.utils"}
@@ -22,3 +22,4 @@ def run(idx, rep, tier):
     fr_rets = e2(idx)
     frame.r_frame(idx, rep, fr_rets, modules=MODS, floor=8)
     degree.r_degree(idx, rep, modules=sorted(MODS), floor=8)
+    unpack.r_unpack(idx, rep, floor=1)
